@@ -416,6 +416,17 @@ def post_fix(run, snap, res, args, kwargs):
         _metamorphic(run, snap, res, meta, wit)
 
 
+def _residuals_cancel(out, i):
+    """True when, in the class (on-/off-target) of output row i, no chromosome has
+    more than two covered bins: the residuals about the chromosome medians are
+    then exactly +-x pairs and zeros, their sum cancels up to rounding, and
+    biweight_midvariance's `sum == 0` test (MAD fall-back) flips with the last bit."""
+    anti = out["gene"].isin(ANTI)
+    cls = out[anti == bool(anti.iloc[i])]
+    cov = cls[~((cls["log2"] < LOW) | (cls["depth"] == 0))] if "depth" in cls.columns else cls[~(cls["log2"] < LOW)]
+    return len(cov) > 0 and int(cov.groupby("chromosome").size().max()) <= 2
+
+
 def _rebuild(obj, df):
     return obj.as_dataframe(df.reset_index(drop=True))
 
@@ -441,7 +452,11 @@ def _metamorphic(run, snap, res, meta, wit):
             d = np.abs(df[c].values.astype(float) - base[c].values.astype(float))
             if np.nanmax(d) > 1e-9:
                 i = int(np.nanargmax(d))
-                run.violate(mon, f"{what}-changes-{c}", f"{what}: {c} of bin {_key(base)[i]} moved by {d[i]:.4g}", dict(wit, **{"detail": meta}))
+                mech = f"{what}-changes-{c}"
+                if c == "weight" and _residuals_cancel(base, i):
+                    # the class's variance estimate sits on the exact-cancellation switch of biweight_midvariance
+                    mech += ":class-residuals-cancel-exactly"
+                run.violate(mon, mech, f"{what}: {c} of bin {_key(base)[i]} moved by {d[i]:.4g}", dict(wit, **{"detail": meta}))
                 return False
         return True
 
